@@ -232,7 +232,7 @@ def heartbeat_across_slow_upgrade(fl: int, ci: int, start: int, dur: int, monito
     return verdict(untraced(_slow_upgrade, fl, ci, start, dur, monitor))
 
 
-def _dead_peer(fl, ws, ci, answered, d, monitor, send_at1, phase, polls):
+def _dead_peer(fl, ws, ci, answered, d, monitor, send_at1, phase, polls, silent_upgrade=0):
     send_at = send_at1 - 1
     """The peer answers ``answered`` PINGs (0 or 1, after delay d <= timeout) and then goes silent."""
     pi, pt = CFG[ci]
@@ -256,6 +256,17 @@ def _dead_peer(fl, ws, ci, answered, d, monitor, send_at1, phase, polls):
             _run_to(sut, cl, t0 + pi + d, other)
             cl.pong()
             last = t0 + pi + d
+        if silent_upgrade and not ws:
+            # the peer opens the upgrade WebSocket and then goes silent INSIDE the handshake (1: before the probe, 2: after
+            # the probe was answered); the socket is never reported closed
+            u_ = sut.ws_upgrade(cl.sid)
+            sut.settle()
+            if silent_upgrade == 2:
+                u_.peer.send('2probe')
+                sut.settle()
+            cl.collect()
+            cl.poll = None
+            st['silent_in_upgrade'] = silent_upgrade
         # silence from now on (a polling client may keep polling, it just never PONGs)
         deadline = last + pi + pt               # the PING goes out at last+pi; its PONG is due ping_timeout later
         bound = last + pi + 3 * pt
@@ -315,6 +326,21 @@ def dead_peer_dropped_in_bound(fl: int, ws: int, ci: int, answered: bool, d: int
     post: _ == ''
     """
     return verdict(untraced(_dead_peer, fl, ws, ci, answered, d, monitor, send_at + 1, phase, polls))
+
+
+@cond(quick=dict(timeout=170, parts=dict(FL=[0, 1])), thorough=dict(timeout=600, parts=dict(FL=[0, 1])))
+def dead_peer_silent_inside_upgrade(fl: int, ci: int, answered: bool, d: int, monitor: bool, send_at: int, stage: int) -> str:
+    """
+    pre: fl == P.FL and 1 <= ci < len(CFG) and 0 <= d <= 2 and -1 <= send_at <= 2 and 1 <= stage <= 2 and (answered or d == 0)
+    post: _ == ''
+    """
+    return verdict(untraced(_silent_upgrade_case, fl, ci, answered, d, monitor, send_at + 1, stage))
+
+
+def _silent_upgrade_case(fl, ci, answered, d, monitor, send_at1, stage):
+    if d > CFG[ci][1]:
+        return ''
+    return _dead_peer(fl, 0, ci, answered, d, monitor, send_at1, 0, False, stage)
 
 
 def _send_vs_deadline(fl, ws, ci, x):
